@@ -75,6 +75,10 @@ def renamer(kind):
         return lambda x: ("nt", x)
     if kind == "rev":
         return lambda x: "Z" + x[::-1]
+    if kind == "START0":      # the user's start symbol is literally named like the library's internal start-symbol prefix
+        return lambda x: "<START>" if x == "N0" else x
+    if kind == "START1":      # ... or some other nonterminal is
+        return lambda x: "<START>" if x == "N1" else x
     raise ValueError(kind)
 
 
